@@ -340,6 +340,46 @@ theorem getD_zipWith_mul [MulZeroClass α] (a b : List α) (r : Nat) :
   simp only [List.getD_eq_getElem?_getD, List.getElem?_zipWith]
   cases a[r]? <;> cases b[r]? <;> simp
 
+/-- entry of a column-scaled matrix -/
+theorem scaleCols_get [MulZeroClass α] (M : Mat α) (w : List α) (a r : Nat) :
+    (scaleCols M w).get a r = M.get a r * w.getD r 0 := by
+  unfold scaleCols Mat.get
+  have : (M.map fun row => List.zipWith (· * ·) row w).getD a [] = List.zipWith (· * ·) (M.getD a []) w := by
+    simp only [List.getD_eq_getElem?_getD, List.getElem?_map]
+    cases M[a]? <;> simp
+  rw [this, getD_zipWith_mul]
+
+theorem zipWith_mul_one [MulOneClass α] (Y : List α) (n : Nat) (h : Y.length = n) :
+    List.zipWith (· * ·) Y (List.replicate n (1 : α)) = Y := by
+  subst h
+  induction Y with
+  | nil => rfl
+  | cons y ys ih => simp [List.replicate_succ, ih]
+
+/-- with unit weights the weighted `mttkrps` is the plain one -/
+theorem mttkrpsK_unit [Semiring α] (T : Dense α) (K : Ktensor α)
+    (hunit : ∀ r < K.ncomp, K.weights.getD r 0 = 1) :
+    mttkrpsK T K = mttkrpsDef T K.factors K.ncomp := by
+  have hw : K.weights = List.replicate K.ncomp (1 : α) := by
+    apply List.ext_getElem
+    · simp [Ktensor.ncomp]
+    · intro n h1 h2
+      have := hunit n h1
+      rw [List.getD_eq_getElem?_getD, List.getElem?_eq_getElem h1, Option.getD_some] at this
+      simp [this]
+  unfold mttkrpsK mttkrpsDef
+  rw [List.map_map]
+  apply List.map_congr_left
+  intro k _
+  simp only [Function.comp, scaleCols, mttkrpDef]
+  rw [List.map_map]
+  apply List.map_congr_left
+  intro a _
+  simp only [Function.comp]
+  conv_lhs => rw [hw]
+  apply zipWith_mul_one
+  simp
+
 theorem Mat.get_hadamard [MulZeroClass α] (A B : Mat α) (s r : Nat) :
     (A.hadamard B).get s r = A.get s r * B.get s r := by
   unfold Mat.hadamard Mat.get
@@ -845,6 +885,7 @@ theorem estimate_full_sample [CommRing α] (X : Dense α) (f g : Handle α)
   simp only [decide_false, Bool.or_false, Bool.false_eq_true, if_false]
   congr 2
   congr 1
+  rw [mttkrpsK_unit _ K hunit]
   unfold mttkrpsDef
   simp only [length_shape, wY, wterm]
   apply List.map_congr_left
